@@ -214,7 +214,10 @@ def triage_failure(pid, h, r, scratch, known):
     violations, known_hits, inconclusive = [], [], []
     fails = [c for c in r["failed"] if classify_failed(c) != "unsupported"]
     logd = os.path.dirname(r["log"])
-    pb = kani_run.run_harness(scratch, h, logd, h["timeout"] * 2,
+    # concrete playback keeps more of the formula (measured: 6 GB -> > 12 GB on a csv harness): give the
+    # re-run a larger memory cap than the verification run
+    hp = dict(h, mem_gb=max(28, 2 * h.get("mem_gb", 8)))
+    pb = kani_run.run_harness(scratch, hp, logd, h["timeout"] * 2,
                               extra_args=["-Z", "concrete-playback", "--concrete-playback=print"], tag="-playback")
     with open(pb["log"], errors="replace") as f:
         pbout = f.read()
